@@ -25,7 +25,7 @@ CLAIMED = {
     ),
     "C08": (
         "proof",
-        "PARTIAL, scope stated: for the REAL kernel generators heavy.kernels.generate / intrinsic.kernels.generate vs asy.kernels.generate_heavy_asy / generate_intrinsic_asy (same esf, nf, heavy flavour), per parton and per order, the weighted kernel sums denote the same distribution in the mechanical limit eps = m2/Q2 -> 0+ (normal form over atoms, log(eps) split off by z3-proved log expansion, radicals rationalised, dilogarithms canonicalised, every other atom evaluated at eps = 0; lemma L-lim gives the O(eps log^k eps) rate), for all z in (0,1): CC F2/FL/F3 quark+gluon at orders 0-1 (Gluck-Kretzer-Reya closed forms), NC F2/FL/g1 VV+AA at O(a_s) through the real LeProHQ.cg0 Python source (executed, not stubbed), NC F2/FL gluon+singlet at O(a_s^2) for Q2/m2 beyond LeProHQ's interpolation grids (> 1e5: LeProHQ then evaluates closed forms, also executed from source) against yadism's own asy/raw_nc.py, heavy-quark-initiated CC and NC kernels at orders 0-1, and -- for the 'missing' channel whose coefficient functions are numerical tables -- equality of the parton weights of every asymptotic kernel with the massive kernel it replaces. NOT covered (no contract can reach it): O(a_s^2) NC massive coefficients inside LeProHQ's grids and the Adler spline; the delta coefficient of the heavy-quark-initiated NC F2/F3 kernels at O(a_s) only as a bounded stand-in.",
+        "PARTIAL, scope stated: for the REAL kernel generators heavy.kernels.generate / intrinsic.kernels.generate vs asy.kernels.generate_heavy_asy / generate_intrinsic_asy (same esf, nf, heavy flavour), per parton and per order, the weighted kernel sums denote the same distribution in the mechanical limit eps = m2/Q2 -> 0+ (normal form over atoms, log(eps) split off by z3-proved log expansion, radicals rationalised, dilogarithms canonicalised, every other atom evaluated at eps = 0; lemma L-lim gives the O(eps log^k eps) rate), for all z in (0,1): CC F2/FL/F3 quark+gluon at orders 0-1 (Gluck-Kretzer-Reya closed forms), NC F2/FL/g1 VV+AA at O(a_s) through the real LeProHQ.cg0 Python source (executed, not stubbed), NC F2/FL gluon+singlet at O(a_s^2) for Q2/m2 beyond LeProHQ's interpolation grids (> 1e5: LeProHQ then evaluates closed forms, also executed from source) against yadism's own asy/raw_nc.py, heavy-quark-initiated CC and NC kernels at orders 0-1, and -- for the 'missing' channel whose coefficient functions are numerical tables -- equality of the parton weights of every asymptotic kernel with the massive kernel it replaces. NOT covered (no contract can reach it): O(a_s^2) NC massive coefficients inside LeProHQ's grids and the Adler spline; only BOUNDED stand-ins (never counted): the delta coefficient of the heavy-quark-initiated NC F2/F3 kernels at O(a_s), and the coefficient functions of the 'missing' channel for NC F2/FL/g1 at Q2/m2 = 1e4, 1e6 (this stand-in found one defect that was repaired and reports two KNOWN-FINDING lines for g1, see KNOWN_FINDINGS.txt).",
         "contract-based deductive verification: symbolic execution of the real massive and asymptotic kernels + mechanical limit (pvc.limit, self-checked against the original term) + ratfun identity in Q(z, log eps, atoms)",
         "DESIGN 9.6",
         "L-lim and dominated convergence are textbook lemmas (stated, not machine-checked); native replay at Q2/m2 = 1e8.",
